@@ -6,7 +6,8 @@
    Model: Model/Leaves.v (executable, extracted, compared with flowjax on every run).
    Lemmas: Proofs/LeafDerivP.v (scalar leaves, gluing, lifting, chains, inverse law),
            Proofs/RqsDerivP.v (spline), Proofs/DetP.v (MathComp determinants at R),
-           Proofs/DetPJac.v (triangular Jacobians, MAF, Coupling, Planar, vector chains).
+           Proofs/DetPJac.v (triangular Jacobians, MAF, Coupling, Planar, vector chains),
+           Proofs/DetPC02.v (the statements below as lemmas: conjunctions of the lemmas above).
    All statements are exact over R (float rounding is not modelled); derivatives are Coquelicot's
    [is_derive].  Axioms: the four of Reals/Coquelicot (sig_forall_dec, sig_not_dec,
    functional_extensionality_dep, classic) and, for the determinant theorems only,
@@ -24,7 +25,7 @@
 From Coq Require Import Reals List ZArith Bool Lra Lia Sorted.
 From Coquelicot Require Import Coquelicot.
 From FJ Require Import Model.Num Model.Leaves Proofs.RNum Proofs.LeafDerivP Proofs.RqsDerivP
-                       Proofs.DetP Proofs.DetPJac.
+                       Proofs.DetP Proofs.DetPJac Proofs.DetPC02.
 Import ListNotations.
 Open Scope R_scope.
 
@@ -49,13 +50,7 @@ Theorem C02_vocabulary :
      chain_inv_ld ls y = fold_left (fun s l => (l_inv l (fst s), snd s + l_ldi l (fst s))) (rev ls) (y, 0)) /\
   (forall (F : list R -> list R) (x : list R) (i j : nat) (d : R),
      partial_at F x i j d <-> is_derive (fun t => nth i (F (upd x j t)) 0) (nth j x 0) d).
-Proof. exact (conj is_ldj_unfold
-  (conj (fun f a l => conj (conj (fun H => H) (fun H => H)) (conj (conj (fun H => H) (fun H => H))
-          (conj (is_derive_of_sides f a l)
-                (fun H => conj (is_derive_left_deriv f a l H) (is_derive_right_deriv f a l H)))))
-  (conj (fun X l => conj (fun H => H) (fun H => H))
-  (conj (fun X ls x y => conj eq_refl eq_refl)
-        (fun F x i j d => conj (fun H => H) (fun H => H)))))). Qed.
+Proof. exact c02_vocabulary. Qed.
 Print Assumptions C02_vocabulary.
 
 (* ====================================================================================== *)
@@ -72,8 +67,7 @@ Theorem C02_affine_family :
   (forall scale x : R, is_derive (scale_fwd ROps scale) x scale) /\
   (forall scale x : R, scale <> 0 -> is_ldj (scale_fwd ROps scale) x (affine_ld ROps scale)) /\
   (forall loc x : R, is_derive (loc_fwd ROps loc) x 1 /\ is_ldj (loc_fwd ROps loc) x 0).
-Proof. exact (conj affine_deriv (conj affine_ldj (conj affine_ld_spec (conj scale_deriv (conj scale_ldj
-  (fun loc x => conj (loc_deriv loc x) (loc_ldj loc x))))))). Qed.
+Proof. exact c02_affine_family. Qed.
 Print Assumptions C02_affine_family.
 
 (* Exp: reported log-det x = ln |exp x|.
@@ -84,8 +78,7 @@ Theorem C02_exp_softplus :
   (forall x : R, is_derive (softplus_fwd ROps) x (exp x / (1 + exp x)) /\
                  softplus_ld_fwd ROps x = ln (Rabs (exp x / (1 + exp x))) /\
                  is_ldj (softplus_fwd ROps) x (softplus_ld_fwd ROps x)).
-Proof. exact (conj (fun x => conj (exp_deriv x) (conj (exp_ld_spec x) (exp_ldj x)))
-                   (fun x => conj (softplus_deriv x) (conj (softplus_ld_spec x) (softplus_ldj x)))). Qed.
+Proof. exact c02_exp_softplus. Qed.
 Print Assumptions C02_exp_softplus.
 
 (* Tanh ([th] of RNum.v is tanh).
@@ -96,8 +89,7 @@ Theorem C02_tanh :
   (forall x : R, tanh_log_grad ROps x = ln (1 - th x * th x)) /\
   (forall x : R, is_derive (tanh_fwd ROps) x (1 - th x * th x) /\ 0 < 1 - th x * th x /\
                  is_ldj (tanh_fwd ROps) x (tanh_ld_fwd ROps x)).
-Proof. exact (conj th_is_tanh (conj tanh_log_grad_spec
-  (fun x => conj (tanh_deriv x) (conj (dth_pos x) (tanh_ldj x))))). Qed.
+Proof. exact c02_tanh. Qed.
 Print Assumptions C02_tanh.
 
 (* LeakyTanh with the fields its constructor stores: linear_grad = exp(_tanh_log_grad(max_val))
@@ -112,7 +104,7 @@ Theorem C02_leaky_tanh :
   (forall m : R, 0 < m -> forall x : R,
      is_ldj (leaky_fwd ROps m (leaky_grad ROps m) (leaky_icpt ROps m)) x
             (leaky_ld_fwd ROps m (leaky_grad ROps m) x)).
-Proof. exact (conj leaky_grad_spec (conj leaky_deriv leaky_ldj)). Qed.
+Proof. exact c02_leaky_tanh. Qed.
 Print Assumptions C02_leaky_tanh.
 
 (* ---------------------------------------------------------------------------------------- *)
@@ -123,12 +115,7 @@ Theorem C02_rqs_valid_def : forall (xp yp dv : list R) (lo hi : R),
   (StronglySorted Rlt xp /\ StronglySorted Rlt yp /\ (2 <= length xp)%nat /\
    length yp = length xp /\ length dv = length xp /\ List.Forall (fun d => 0 < d) dv /\
    nth 0 xp 0 = lo /\ last xp 0 = hi /\ nth 0 yp 0 = lo /\ last yp 0 = hi).
-Proof. exact (fun xp yp dv lo hi => conj
-  (fun V => conj (v_xs _ _ _ _ _ V) (conj (v_ys _ _ _ _ _ V) (conj (v_len _ _ _ _ _ V) (conj (v_leny _ _ _ _ _ V)
-     (conj (v_lend _ _ _ _ _ V) (conj (v_dpos _ _ _ _ _ V) (conj (v_xlo _ _ _ _ _ V) (conj (v_xhi _ _ _ _ _ V)
-     (conj (v_ylo _ _ _ _ _ V) (v_yhi _ _ _ _ _ V))))))))))
-  (fun H => match H with conj a (conj b (conj c (conj d (conj e (conj f (conj g (conj h (conj i j)))))))) =>
-     Build_rqs_valid xp yp dv lo hi a b c d e f g h i j end)). Qed.
+Proof. exact c02_rqs_valid_def. Qed.
 Print Assumptions C02_rqs_valid_def.
 
 (* (a) strictly inside the interval -- bins AND interior knots (there both one-sided derivatives are
@@ -149,12 +136,7 @@ Theorem C02_rqs : forall (xp yp dv : list R) (lo hi : R), rqs_valid xp yp dv lo 
      rqs_ld_fwd ROps xp yp dv lo hi x = ln (Rabs (rqs_deriv ROps xp yp dv lo hi x))) /\
   (forall x : R, x <> lo -> x <> hi ->
      is_ldj (rqs_fwd ROps xp yp dv lo hi) x (rqs_ld_fwd ROps xp yp dv lo hi x)).
-Proof. exact (fun xp yp dv lo hi V =>
-  conj (rqs_deriv_inside xp yp dv lo hi V)
-  (conj (rqs_deriv_outside xp yp dv lo hi)
-  (conj (rqs_deriv_at_knot xp yp dv lo hi V)
-  (conj (fun x => conj (rqs_deriv_pos xp yp dv lo hi V x) (rqs_ld_spec xp yp dv lo hi V x))
-        (rqs_ldj xp yp dv lo hi V))))). Qed.
+Proof. exact c02_rqs. Qed.
 Print Assumptions C02_rqs.
 
 (* the two interval ends: what derivative() reports there is the INNER one-sided derivative (the end
@@ -168,10 +150,7 @@ Theorem C02_rqs_interval_ends : forall (xp yp dv : list R) (lo hi : R), rqs_vali
   (f' hi = d_last /\ left_deriv f hi (f' hi) /\ right_deriv f hi 1) /\
   (d_first = 1 -> is_derive f lo (f' lo)) /\ (d_first <> 1 -> ~ exists d, is_derive f lo d) /\
   (d_last = 1 -> is_derive f hi (f' hi)) /\ (d_last <> 1 -> ~ exists d, is_derive f hi d).
-Proof. exact (fun xp yp dv lo hi V =>
-  conj (rqs_end_lo xp yp dv lo hi V) (conj (rqs_end_hi xp yp dv lo hi V)
-  (conj (rqs_end_lo_smooth xp yp dv lo hi V) (conj (rqs_end_lo_kink xp yp dv lo hi V)
-  (conj (rqs_end_hi_smooth xp yp dv lo hi V) (rqs_end_hi_kink xp yp dv lo hi V)))))). Qed.
+Proof. exact c02_rqs_interval_ends. Qed.
 Print Assumptions C02_rqs_interval_ends.
 
 (* ====================================================================================== *)
@@ -196,13 +175,7 @@ Theorem C02_ldj_inverse_law_leaves :
      leaky_ld_inv ROps m g ic y = - leaky_ld_fwd ROps m g (leaky_inv ROps m g ic y)) /\
   (forall (xp yp dv : list R) (lo hi y : R),
      rqs_ld_inv ROps xp yp dv lo hi y = - rqs_ld_fwd ROps xp yp dv lo hi (rqs_inv ROps xp yp dv lo hi y)).
-Proof. exact
-  (conj (fun loc scale H => conj (affine_layer_ok loc scale H) (conj (scale_layer_ok scale H) (loc_layer_ok loc)))
-  (conj (fun y H => ldj_inverse_law R exp_layer y exp_layer_ok H)
-  (conj (fun y H => ldj_inverse_law R softplus_layer y softplus_layer_ok H)
-  (conj (fun y H => ldj_inverse_law R tanh_layer y tanh_layer_ok H)
-  (conj (fun m H y => conj (leaky_fwd_inv m H y) (conj (leaky_inv_fwd m H y) (leaky_ld_inverse_law m H y)))
-        rqs_ld_inverse_law))))). Qed.
+Proof. exact c02_ldj_inverse_law_leaves. Qed.
 Print Assumptions C02_ldj_inverse_law_leaves.
 
 (* generic: Chain (any number of layers, any value type) and Invert preserve the law; so does every
@@ -212,7 +185,7 @@ Theorem C02_ldj_inverse_law :
   (forall (X : Type) (l : layer X), layer_ok l -> layer_ok (invert_layer l)) /\
   (forall (X : Type) (l : layer X) (y : X), layer_ok l -> l_cod l y ->
      l_fwd l (l_inv l y) = y /\ l_ldi l y = - l_ldf l (l_inv l y)).
-Proof. exact (conj chain_layer_ok (conj invert_layer_ok ldj_inverse_law)). Qed.
+Proof. exact c02_ldj_inverse_law. Qed.
 Print Assumptions C02_ldj_inverse_law.
 
 (* ====================================================================================== *)
@@ -225,7 +198,7 @@ Theorem C02_lift_ldj : forall (f ld d : R -> R) (xs : list R),
   lift_ld ROps ld xs = sum ROps (map (fun x => ln (Rabs (d x))) xs) /\
   lift_ld ROps ld xs = ln (Rabs (prodR (map d xs))) /\ prodR (map d xs) <> 0 /\
   List.Forall2 (fun x y => y = f x) xs (lift f xs).
-Proof. exact lift_ldj. Qed.
+Proof. exact c02_lift_ldj. Qed.
 Print Assumptions C02_lift_ldj.
 
 (* the log-det of a Chain is the sum of the layers' log-dets at the running intermediate values
@@ -241,10 +214,41 @@ Theorem C02_chain :
      List.Forall (fun l => forall x, l_dom l x -> is_ldj (l_fwd l) x (l_ldf l x)) ls ->
      forall x : R, comp_dom ls x ->
      is_ldj (fun t => fst (chain_fwd_ld ls t)) x (snd (chain_fwd_ld ls x))).
-Proof. exact (conj
-  (fun X ls x => conj (chain_fwd_ld_spec X ls x) (conj (fun l t => conj eq_refl eq_refl) (conj eq_refl eq_refl)))
-  chain_ldj_rank0). Qed.
+Proof. exact c02_chain. Qed.
 Print Assumptions C02_chain.
+
+(* Invert at rank 0: the log-det it reports in its own forward direction (= the inner inverse
+   log-det = minus the inner forward one at g y, by C02_ldj_inverse_law) is ln |g'(y)| for the inverse
+   map g.  _partial: differentiability of g at y (the inverse function theorem) is a hypothesis;
+   full statement: without [is_derive g y e]. *)
+Theorem C02_invert_ldj_rank0_partial : forall (f g : R -> R) (y lf e eps : R),
+  is_ldj f (g y) lf -> 0 < eps -> (forall t, y - eps < t < y + eps -> f (g t) = t) ->
+  is_derive g y e -> is_ldj g y (- lf).
+Proof. exact c02_invert_ldj_rank0_partial. Qed.
+Print Assumptions C02_invert_ldj_rank0_partial.
+
+(* Invert(leaf) for the scalar leaves, unconditionally: inverse() is differentiable at every point of
+   the codomain (for LeakyTanh also at +-tanh(max_val): gluing) and the log-det reported with it is
+   ln |inverse'(y)|; hence rank-0 chains of inverted leaves are covered by C02_chain as well. *)
+Theorem C02_invert_leaves : 
+  (forall loc scale y : R, scale <> 0 -> is_ldj (affine_inv ROps loc scale) y (- affine_ld ROps scale)) /\
+  (forall scale y : R, scale <> 0 -> is_ldj (scale_inv ROps scale) y (- affine_ld ROps scale)) /\
+  (forall loc y : R, is_ldj (loc_inv ROps loc) y 0) /\
+  (forall y : R, 0 < y -> is_ldj (exp_inv ROps) y (exp_ld_inv ROps y)) /\
+  (forall y : R, 0 < y -> is_ldj (softplus_inv ROps) y (softplus_ld_inv ROps y)) /\
+  (forall y : R, -1 < y < 1 -> is_ldj (tanh_inv ROps) y (tanh_ld_inv ROps y)) /\
+  (forall m : R, 0 < m -> forall y : R,
+     is_ldj (leaky_inv ROps m (leaky_grad ROps m) (leaky_icpt ROps m)) y
+            (leaky_ld_inv ROps m (leaky_grad ROps m) (leaky_icpt ROps m) y)) /\
+  (* the generic step: Invert of any rank-0 layer whose codomain is open and whose inverse map is
+     differentiable (the leaves above; for the spline differentiability of inverse() is not proved) *)
+  (forall l : layer R, layer_ok l ->
+     (forall x, l_dom l x -> is_ldj (l_fwd l) x (l_ldf l x)) ->
+     (forall y, l_cod l y -> exists eps, 0 < eps /\ forall t, y - eps < t < y + eps -> l_cod l t) ->
+     (forall y, l_cod l y -> exists e, is_derive (l_inv l) y e) ->
+     forall y, l_cod l y -> is_ldj (l_inv l) y (l_ldi l y)).
+Proof. exact c02_invert_leaves. Qed.
+Print Assumptions C02_invert_leaves.
 
 (* ====================================================================================== *)
 (* 4. Determinants: triangular maps, planar                                                  *)
@@ -266,9 +270,7 @@ Theorem C02_triangular_affine :
   (forall (m : list (list R)) (loc x : list R) (i j : nat), let n := length m in
      length x = n -> length loc = n -> (forall r, In r m -> length r = n) -> (i < n)%nat -> (j < n)%nat ->
      is_derive (fun t => nth i (tri_fwd ROps m loc (upd x j t)) 0) (nth j x 0) (nth j (nth i m []) 0)).
-Proof. exact (conj
-  (fun n F H => match H with or_introl L => detF_lower L | or_intror U => detF_upper U end)
-  (conj tri_ld_det tri_fwd_jacobian)). Qed.
+Proof. exact c02_triangular_affine. Qed.
 Print Assumptions C02_triangular_affine.
 
 (* any map with y_i independent of x_j (j > i) and own-coordinate log-derivatives l_i: for ANY matrix J
@@ -278,7 +280,7 @@ Theorem C02_tri_jacobian_ldj : forall (n : nat) (F : list R -> list R) (x : list
   (forall i, (i < n)%nat -> is_ldj (fun t => nth i (F (upd x i t)) 0) (nth i x 0) (l i)) ->
   (forall i j, (i <= j)%nat -> (j < n)%nat -> partial_at F x i j (J i j)) ->
   sum ROps (map l (seq 0 n)) = ln (Rabs (detF n J)) /\ detF n J <> 0.
-Proof. exact tri_jacobian_ldj. Qed.
+Proof. exact c02_tri_jacobian_ldj. Qed.
 Print Assumptions C02_tri_jacobian_ldj.
 
 (* MaskedAutoregressive with an ARBITRARY autoregressive conditioner g and any transformer family
@@ -298,8 +300,7 @@ Theorem C02_maf_ldj_partial : forall (P : Type) (tau tld : P -> R -> R) (pvalid 
      maf_ld P tld g x = ln (Rabs (detF (length x) J)) /\ detF (length x) J <> 0) /\
   (exists J : nat -> nat -> R,
      forall i j, (i <= j)%nat -> (j < length x)%nat -> partial_at (maf_fwd P tau g) x i j (J i j)).
-Proof. exact (fun P tau tld pvalid H1 g H2 H3 x =>
-  conj (maf_ldj P tau tld pvalid H1 g H2 H3 x) (maf_upper_exists P tau tld pvalid H1 g H2 H3 x)). Qed.
+Proof. exact c02_maf_ldj_partial. Qed.
 Print Assumptions C02_maf_ldj_partial.
 (* Coupling with an arbitrary conditioner of x[:d] *)
 Theorem C02_coupling_ldj_partial : forall (P : Type) (tau tld : P -> R -> R) (pvalid : P -> Prop),
@@ -308,14 +309,13 @@ Theorem C02_coupling_ldj_partial : forall (P : Type) (tau tld : P -> R -> R) (pv
   forall (d : nat) (x : list R) (J : nat -> nat -> R), (d <= length x)%nat ->
   (forall i j, (i <= j)%nat -> (j < length x)%nat -> partial_at (coupling_fwd P tau g d) x i j (J i j)) ->
   coupling_ld P tld g d x = ln (Rabs (detF (length x) J)) /\ detF (length x) J <> 0.
-Proof. exact coupling_ldj. Qed.
+Proof. exact c02_coupling_ldj_partial. Qed.
 Print Assumptions C02_coupling_ldj_partial.
 
 (* Planar: the matrix determinant lemma det (I + u v^T) = 1 + v.u, and with it: the entrywise
    Jacobian of transform is (delta_ij + u_i psi_j) with the code's psi, and the reported log-det is
    ln |det| of it -- tanh activation at every x; leaky_relu (slope s > 0) away from its kink.
-   The determinant is 1 + u.psi; that it is non-zero (what get_act_scale is there to ensure for
-   w <> 0) is NOT proved here: the value of the determinant is stated instead. *)
+   The determinant is 1 + u.psi; its positivity is C02_planar_det_pos below. *)
 Theorem C02_planar :
   (forall (n : nat) (u v : nat -> R),
      detF n (fun i j => (if Nat.eqb i j then 1 else 0) + u i * v j)
@@ -338,8 +338,39 @@ Theorem C02_planar :
      (forall i j, (i < n)%nat -> (j < n)%nat ->
         is_derive (fun t => nth i (planar_fwd ROps (Some s) w u0 b (upd x j t)) 0) (nth j x 0) (J i j)) /\
      planar_ld_fwd ROps (Some s) w u0 b x = ln (Rabs (detF n J)) /\ detF n J = 1 + dot ROps u psi).
-Proof. exact (conj detF_rank1 (conj planar_tanh_ldj planar_lrelu_ldj)). Qed.
+Proof. exact c02_planar. Qed.
 Print Assumptions C02_planar.
+
+(* the determinant 1 + u.psi is POSITIVE (so the log is not a totalised ln 0) for the tanh activation
+   and for leaky_relu slopes 0 < s <= 1, whenever w <> 0 (w.w > 0): this is what get_act_scale
+   ensures (w.u_hat = -1 + log(1 + softplus(w.u)) > -1).  The bound s <= 1 is necessary: for s > 1
+   and w.u_hat < -1/s the determinant is <= 0 on the half-space w.x + b < 0 and the map is not
+   injective (witnessed on the implementation; belongs to C01). *)
+Theorem C02_planar_det_pos : forall (ns : option R) (w u0 : list R) (b : R) (x : list R),
+  length u0 = length w -> 0 < dot ROps w w ->
+  match ns with Some s => 0 < s <= 1 | None => True end ->
+  let u := planar_u ROps w u0 in
+  let act := planar_act ROps ns (dot ROps x w + b) in
+  let psi := match ns with
+             | Some s => vscale ROps (if Rltb act 0 then s else 1) w
+             | None => vscale ROps (1 - act * act) w end in
+  0 < 1 + dot ROps u psi.
+Proof. exact c02_planar_det_pos. Qed.
+Print Assumptions C02_planar_det_pos.
+
+(* Concatenate / Stack / Vmap: the children act on disjoint slices, the Jacobian is block diagonal
+   (blockF), and the python sum of the children's log-dets is ln |det| of it (MathComp det_ublock).
+   Two blocks; any number by folding. *)
+Theorem C02_block_diagonal :
+  (forall (n1 : nat) (A B : nat -> nat -> R) (i j : nat),
+     blockF n1 A B i j = if (i <? n1)%nat then (if (j <? n1)%nat then A i j else 0)
+                         else (if (j <? n1)%nat then 0 else B (i - n1)%nat (j - n1)%nat)) /\
+  (forall (n1 n2 : nat) (A B : nat -> nat -> R), detF (n1 + n2) (blockF n1 A B) = detF n1 A * detF n2 B) /\
+  (forall (n1 n2 : nat) (A B : nat -> nat -> R) (l1 l2 : R),
+     l1 = ln (Rabs (detF n1 A)) -> detF n1 A <> 0 -> l2 = ln (Rabs (detF n2 B)) -> detF n2 B <> 0 ->
+     l1 + l2 = ln (Rabs (detF (n1 + n2) (blockF n1 A B))) /\ detF (n1 + n2) (blockF n1 A B) <> 0).
+Proof. exact c02_block_diagonal. Qed.
+Print Assumptions C02_block_diagonal.
 
 (* ====================================================================================== *)
 (* 5. Compositions at rank >= 1.  CITED, NOT PROVED: the multivariate chain rule (the Jacobian  *)
@@ -362,7 +393,7 @@ Theorem C02_compositional_partial :
      comp_dom ls x ->
      forall Hchain : (forall i j, (i < n)%nat -> (j < n)%nat -> JC i j = jac_prod n Jac ls x i j),
      snd (chain_fwd_ld ls x) = ln (Rabs (detF n JC)) /\ detF n JC <> 0).
-Proof. exact (fun n Jac => conj (fun l t x i k => conj eq_refl eq_refl) (chain_ldj_vec_partial n Jac)). Qed.
+Proof. exact c02_compositional_partial. Qed.
 Print Assumptions C02_compositional_partial.
 
 (* ====================================================================================== *)
@@ -457,5 +488,5 @@ Qed.
 From mathcomp Require Import all_ssreflect ssralg matrix.
 Theorem C02_detF_is_det : forall (n : nat) (F : nat -> nat -> R),
   detF n F = (\det (\matrix_(i < n, j < n) F i j))%R.
-Proof. exact (fun n F => erefl). Qed.
+Proof. exact detF_is_det. Qed.
 Print Assumptions C02_detF_is_det.
